@@ -1,0 +1,67 @@
+//go:build verif
+
+package prolog
+
+// Contracts for govc (see /verif/DESIGN.md section 3.2). Comment-only file: nothing here is compiled into the library.
+
+//@ ---------------------------------------------------------------- Scan: Go values across the API (C15)
+
+//@ func convertAssignInt
+//@   property C15
+//@   requires d != nil
+//@   bind v = engine.(*Env).Resolve#1
+//@   modifies *d
+//@   at-call engine.(*Env).Resolve requires[resolves-the-answer] a0 == env && a1 == t
+//@   ensures[exact-or-error] result == nil ==> v is engine.Integer && *d == (v as engine.Integer)
+//@   ensures[not-an-integer] !(v is engine.Integer) ==> result == errConversion && *d == old(*d)
+//@   ensures[closed] result == nil || result == errConversion
+
+//@ func convertAssignInt8
+//@   property C15
+//@   requires d != nil
+//@   bind v = engine.(*Env).Resolve#1
+//@   modifies *d
+//@   at-call engine.(*Env).Resolve requires[resolves-the-answer] a0 == env && a1 == t
+//@   ensures[exact-or-error] result == nil ==> v is engine.Integer && *d == (v as engine.Integer)
+//@   ensures[not-an-integer] !(v is engine.Integer) ==> result == errConversion && *d == old(*d)
+//@   ensures[closed] result == nil || result == errConversion
+
+//@ func convertAssignInt16
+//@   property C15
+//@   requires d != nil
+//@   bind v = engine.(*Env).Resolve#1
+//@   modifies *d
+//@   at-call engine.(*Env).Resolve requires[resolves-the-answer] a0 == env && a1 == t
+//@   ensures[exact-or-error] result == nil ==> v is engine.Integer && *d == (v as engine.Integer)
+//@   ensures[not-an-integer] !(v is engine.Integer) ==> result == errConversion && *d == old(*d)
+//@   ensures[closed] result == nil || result == errConversion
+
+//@ func convertAssignInt32
+//@   property C15
+//@   requires d != nil
+//@   bind v = engine.(*Env).Resolve#1
+//@   modifies *d
+//@   at-call engine.(*Env).Resolve requires[resolves-the-answer] a0 == env && a1 == t
+//@   ensures[exact-or-error] result == nil ==> v is engine.Integer && *d == (v as engine.Integer)
+//@   ensures[not-an-integer] !(v is engine.Integer) ==> result == errConversion && *d == old(*d)
+//@   ensures[closed] result == nil || result == errConversion
+
+//@ func convertAssignInt64
+//@   property C15
+//@   requires d != nil
+//@   bind v = engine.(*Env).Resolve#1
+//@   modifies *d
+//@   at-call engine.(*Env).Resolve requires[resolves-the-answer] a0 == env && a1 == t
+//@   ensures[exact-or-error] result == nil ==> v is engine.Integer && *d == (v as engine.Integer)
+//@   ensures[not-an-integer] !(v is engine.Integer) ==> result == errConversion && *d == old(*d)
+//@   ensures[closed] result == nil || result == errConversion
+
+//@ func convertAssignFloat64
+//@   property C15
+//@   requires d != nil
+//@   bind v = engine.(*Env).Resolve#1
+//@   modifies *d
+//@   at-call engine.(*Env).Resolve requires[resolves-the-answer] a0 == env && a1 == t
+//@   ensures[exact-or-error] result == nil ==> v is engine.Float && same(*d, v as engine.Float)
+//@   ensures[not-a-float] !(v is engine.Float) ==> result == errConversion && same(*d, old(*d))
+//@   ensures[closed] result == nil || result == errConversion
